@@ -190,7 +190,10 @@ def c20_r2(ctx):
                     GA.eq(lp.target, "i")
                     sp = [st for st in lp.body if isinstance(st, ast.Assign)
                           and (GA.eq(st, "slot = (((hashval >> 8) % numslots) + i) % numslots", deep=True) or
-                               GA.eq(st, "slot = (((hashval >> 8) % (2 * len(entries))) + i) % (2 * len(entries))", deep=True))]
+                               GA.eq(st, "slot = (((hashval >> 8) % (2 * len(entries))) + i) % (2 * len(entries))", deep=True) or
+                               # (h + i) % n == ((h % n) + i) % n: the home slot need not be reduced first
+                               GA.eq(st, "slot = ((hashval >> 8) + i) % numslots", deep=True) or
+                               GA.eq(st, "slot = ((hashval >> 8) + i) % (2 * len(entries))", deep=True))]
                     brk = [st for st in lp.body if isinstance(st, ast.If) and any(isinstance(x, ast.Break) for x in st.body)
                            and (GA.eq(st.test, "hashtable[slot] == null") or GA.eq(st.test, "null == hashtable[slot]"))]
                     if len(sp) == 1 and lp.body[0] is sp[0] and brk:
